@@ -119,3 +119,76 @@ pub proof fn lemma_bits_shr1_large(s: Seq<Word>, zb: u32)
         assert(((w >> b) & 1) == 0) by (bit_vector) requires 1 <= b < @BITS@, (w >> 1u32) == 0;
     }
 }
+
+// ---- bit_at is the binary digit of the NUMBER val(s):  bit_at(s, i)  <==>  (val(s) div 2^i) mod 2 == 1 -------
+
+pub proof fn lemma_bits_pw_pow2(k: int)
+    requires k >= 0,
+    ensures pw(k) == pow2(k * @BITS@),
+    decreases k
+{
+    if k > 0 {
+        lemma_bits_pw_pow2(k - 1);
+        lemma_sh_pow2_add(@BITS@, (k - 1) * @BITS@);
+        lemma_sh_pow2_bits();
+    }
+}
+
+pub proof fn lemma_bits_bit_at_val(s: Seq<Word>, i: int)
+    requires 0 <= i < s.len() * @BITS@,
+    ensures bit_at(s, i) == ((val(s) / pow2(i)) % 2 == 1),
+{
+    let n = s.len() as int;
+    let k = i / @BITS@;
+    let b = i % @BITS@;
+    let w = s[k];
+    let wi = w as int;
+    // val(s) == low + pw(k)·(w + B·rest), 0 <= low < pw(k)
+    let hi = s.subrange(k, n);
+    lemma_valn_split(s, k, n);
+    lemma_valn_bound(s, k);
+    let low = valn(s, k);
+    assert(valn(hi, n - k) == val(hi));
+    lemma_val_split(hi, 1);
+    lemma_val1(hi.subrange(0, 1));
+    assert(hi.subrange(0, 1)[0] == w);
+    assert(pw(1) == B()) by { assert(pw(1) == B() * pw(0)); assert(pw(0) == 1); }
+    let rest = val(hi.subrange(1, hi.len() as int));
+    let top = wi + B() * rest;
+    assert(val(s) == low + pw(k) * top);
+    // divide by pw(k)
+    lemma_pw_pos(k);
+    assert(pw(k) * top == top * pw(k)) by (nonlinear_arith);
+    vstd::arithmetic::div_mod::lemma_fundamental_div_mod_converse(val(s), pw(k), top, low);
+    // pow2(i) == pw(k)·pow2(b)
+    lemma_bits_pw_pow2(k);
+    lemma_sh_pow2_add(k * @BITS@, b);
+    lemma_sh_pow2_pos(b);
+    let pb = pow2(b);
+    lemma_valn_bound(s, n);
+    vstd::arithmetic::div_mod::lemma_div_denominator(val(s), pw(k), pb);
+    assert(val(s) / pow2(i) == top / pb);
+    // top / 2^b == w / 2^b + 2^(BITS-b)·rest
+    lemma_sh_pow2_add(b, @BITS@ - b);
+    lemma_sh_pow2_bits();
+    let c = pow2(@BITS@ - b);
+    assert(c == 2 * pow2(@BITS@ - b - 1));
+    vstd::arithmetic::div_mod::lemma_fundamental_div_mod(wi, pb);
+    vstd::arithmetic::div_mod::lemma_mod_bound(wi, pb);
+    let q = wi / pb + c * rest;
+    assert(B() * rest == (c * rest) * pb) by (nonlinear_arith) requires B() == pb * c;
+    assert(q * pb == pb * (wi / pb) + (c * rest) * pb) by (nonlinear_arith) requires q == wi / pb + c * rest;
+    vstd::arithmetic::div_mod::lemma_fundamental_div_mod_converse(top, pb, q, wi % pb);
+    assert(top / pb == q);
+    // parity
+    let e = pow2(@BITS@ - b - 1) * rest;
+    assert(c * rest == 2 * e) by (nonlinear_arith) requires c == 2 * pow2(@BITS@ - b - 1), e == pow2(@BITS@ - b - 1) * rest;
+    assert(q % 2 == (wi / pb) % 2);
+    // machine level
+    let bw = b as @W@;
+    let bu = b as u32;
+    lemma_sh_shr_div_w(w, bu);
+    assert((w >> bw) == (w >> bu)) by (bit_vector) requires bw < @BITS@, bw == bu as @W@;
+    let sh = w >> bw;
+    assert(((sh & 1) == 1) == (sh % 2 == 1)) by (bit_vector);
+}
